@@ -988,7 +988,7 @@ static void grid_bfs (const char *which, const char *cbset, int thorough)
 		for (k = 1; k < N4; k++) for (r = 1; k + r <= N4; r++) add_with_cb (2, 4, k, r, 0, 0, cbset, thorough);
 	}
 	if (strstr (which, "2d")) {
-		int nmax = (int) vf_opt_long ("nmax2d", thorough ? 12 : 9);
+		int nmax = (int) vf_opt_long ("nmax2d", thorough ? 14 : 11);
 		for (k = 1; k <= 16; k++) for (r = 1; r <= 23; r++) if (k + r <= nmax && accepted_2d (k, r)) add_with_cb (5, 0, k, r, 0, 0, "n", thorough);
 	}
 	if (strstr (which, "lowrate")) {
